@@ -114,7 +114,12 @@ mod verif_search {
                 let dl: Vec<u32> = if let Some(sy) = lone_dist { let mut d = vec![0u32; sy + 1]; d[sy] = 1; d }
                     else if no_dist { vec![0u32] }
                     else if far && rng.below(2) == 0 { skewed_lengths(30, 15) }
-                    else { let nd = 2 + rng.below(29) as usize; rand_lengths(rng, nd, 15) };
+                    else {
+                        let nd = 2 + rng.below(29) as usize; let mut d = rand_lengths(rng, nd, 15);
+                        // now and then more distance codes are declared than used: trailing zero lengths
+                        if rng.below(3) == 0 { let extra = rng.below((30 - nd) as u32 + 1) as usize; d.extend(std::iter::repeat(0).take(extra)); }
+                        d
+                    };
                 (ll, dl)
             };
             let (lc, dc) = (canon(&ll), canon(&dl));
@@ -154,7 +159,7 @@ mod verif_search {
                 for &s in ORDER.iter().take(hclen) { b.put(cl[s], 3); }
                 for &(sy, ev, eb) in &items { b.code(cc[sy], cl[sy]); b.put(ev, eb); }
             }
-            let max_dist: u32 = if no_dist { 0 } else { let top = dl.len().min(30) - 1; std::cmp::min(32768, DB[top] + (1 << DE[top]) - 1) };
+            let max_dist: u32 = if no_dist { 0 } else { let top = dl.iter().take(30).rposition(|&l| l != 0).unwrap_or(0); std::cmp::min(32768, DB[top] + (1 << DE[top]) - 1) };
             let ntok = rng.below(40);
             for _ in 0..ntok {
                 let lone_ok = match lone_dist { Some(sy) => DB[sy] as usize <= text.len(), None => true };
@@ -299,6 +304,34 @@ mod verif_search {
                 }
             }
         }
+        // every sequence of one to three tiny blocks (empty / short stored, empty / one-literal / one-match fixed blocks):
+        // streams whose blocks carry no tokens or no references at all are where the estimators' corner cases are
+        for nb in 1..=3usize {
+            let kinds = 6usize;
+            for code in 0..kinds.pow(nb as u32) {
+                let mut b = Bits::new();
+                let mut c = code; let mut produced = 0usize;
+                for bi in 0..nb {
+                    let k = c % kinds; c /= kinds;
+                    let last = bi + 1 == nb;
+                    b.put(last as u32, 1);
+                    match k {
+                        0 | 1 => { b.put(0, 2); let p = b.pending(); b.put(0, p); let len = if k == 0 { 0 } else { 3 }; b.put(len, 16); b.put(!len & 0xffff, 16); for i in 0..len { b.put(97 + i, 8); produced += 1; } }
+                        2 => { b.put(1, 2); b.code(0, 7); }
+                        3 => { b.put(1, 2); fixed_lit(&mut b, 97); produced += 1; b.code(0, 7); }
+                        4 => { b.put(1, 2); fixed_lit(&mut b, 97); fixed_lit(&mut b, 98); produced += 2; b.code(0, 7); }
+                        _ => { b.put(1, 2); if produced == 0 { fixed_lit(&mut b, 97); produced += 1; } b.code(1, 7); b.code(0, 5); produced += 3; b.code(0, 7); }   // match len 3 dist 1
+                    }
+                }
+                let p = b.pending(); b.put(0, p);
+                n += 1; if let Some(m) = check_c05(&b.out) { fail(&b.out, m); }
+            }
+        }
+        // dynamic headers out of the ordinary: more distance codes declared than used (trailing zero lengths)
+        for _ in 0..600 {
+            let (stream, _text, _desc) = gen_stream(&mut rng, false);
+            n += 1; if let Some(m) = check_c05(&stream) { fail(&stream, m); }
+        }
         println!("SEARCH-DONE property=c05 no failing input in {} inputs", n);
     }
 
@@ -340,6 +373,7 @@ mod verif_search {
             let mut d = read_file(f); d.truncate(d.len()); streams.push(d);
         }
         let mut n = 0;
+        let mut skipped = 0;
         for (si, stream) in streams.iter().enumerate() {
             let big = stream.len() > 10000;
             let rounds = if big { 10 } else { 36 };
@@ -361,6 +395,12 @@ mod verif_search {
                         hash_algorithm: hashes[(k + si) % hashes.len()],
                     },
                 };
+                // the range of the estimator (proved: U19 over U23, spec/hops.rs pp_ok): a positive chain budget that
+                // stays positive when zlib quarters it for "good" matches; no far matches without a dictionary
+                let t = &p.predictor;
+                let no_dict = matches!(t.strategy, PreflateStrategy::Store | PreflateStrategy::HuffOnly);
+                let lazy_ok = match t.matching_type { MatchingType::Lazy { good_length, max_lazy } => good_length >= max_lazy || t.max_chain >= 4, MatchingType::Greedy => true };
+                if (no_dict && t.very_far_matches_detected) || (!no_dict && t.zlib_compatible && !lazy_ok) { skipped += 1; continue; }
                 n += 1;
                 let (s2, p2) = (stream.clone(), p);
                 match std::panic::catch_unwind(move || check_c08(&s2, &p2)) {
@@ -370,7 +410,7 @@ mod verif_search {
                 }
             }
         }
-        println!("SEARCH-DONE property=c08 no failing input in {} (stream, parameter vector) pairs", n);
+        println!("SEARCH-DONE property=c08 no failing input in {} (stream, parameter vector) pairs ({} vectors outside the estimator's range skipped)", n, skipped);
     }
 
     #[test]
